@@ -15,7 +15,7 @@
 (***************************************************************************)
 EXTENDS Naturals, Integers, Sequences, FiniteSets, TLC, Json
 CONSTANTS MaxCols, MaxActions, Small, Emit,
-          Tiny      \* TRUE: two plain ranged columns only (exhaustive life cycles of two-column tables incl. RemoveCols)
+          Tiny      \* TRUE: two ranged columns only, break-by or not (exhaustive life cycles of two-column tables incl. RemoveCols)
 
 Fields == IF Small THEN {"e", "c(x)"} ELSE {"a", "b", "e", "c(x)"}      \* "e" is an enum field (supports modifiers);
                                                                          \* "c(x)": a field name with parentheses (sql style)
@@ -23,7 +23,7 @@ Mods(f) == IF f = "e" THEN {"", "val", "name", "full"} ELSE {""}
 Ranges == IF Small THEN { <<3, 3>>, <<1, 6>> } ELSE { <<3, 3>>, <<0, 0>>, <<1, 6>>, <<2, 20>> }
 ColPool == { [f |-> f, mod |-> m, brk |-> b, min |-> r[1], max |-> r[2]] :
                  f \in Fields, m \in {"", "val", "name", "full"}, b \in BOOLEAN, r \in Ranges }
-Cols1 == IF Tiny THEN { [f |-> f, mod |-> "", brk |-> FALSE, min |-> 1, max |-> 6] : f \in {"e", "c(x)"} }
+Cols1 == IF Tiny THEN { [f |-> f, mod |-> "", brk |-> b, min |-> 1, max |-> 6] : f \in {"e", "c(x)"}, b \in BOOLEAN }
          ELSE { c \in ColPool : c.mod \in Mods(c.f) }
 ColLists == UNION { [1 .. n -> Cols1] : n \in 1 .. MaxCols }
 LimitPool == { <<30, 20>>, <<1, 1>>, <<0, 2>>, <<2, 0>>, <<2, 2>>, <<-1, -1>> }        \* <<-1,-1>> = "*" (no limits)
@@ -64,19 +64,22 @@ SetSame == /\ Can /\ n' = n + 1 /\ frozen' = FALSE /\ skipped' = "unknown"
 SetEmpty == /\ Can /\ n' = n + 1 /\ frozen' = FALSE /\ skipped' = "unknown"
             /\ \E s \in {"", ";", ";;"} : hist' = Append(hist, [op |-> "setempty", s |-> s])
             /\ UNCHANGED <<cols, limits>>
-SetCols == /\ Can /\ n' = n + 1 /\ frozen' = FALSE /\ skipped' = "unknown"
+SetCols == /\ ~Tiny                      \* the Tiny family is about RemoveCols; new column lists are covered by the other families
+           /\ Can /\ n' = n + 1 /\ frozen' = FALSE /\ skipped' = "unknown"
            /\ \E cl \in ColLists : cols' = cl /\ hist' = Append(hist, [op |-> "setcols", cols |-> cl])
            /\ UNCHANGED limits
 SetLimits == /\ Can /\ n' = n + 1 /\ frozen' = FALSE /\ skipped' = "unknown"
              /\ \E l \in LimitPool : limits' = l /\ hist' = Append(hist, [op |-> "setlimits", limits |-> l])
              /\ UNCHANGED cols
-(* table.remove_columns(<<field>>): every column showing that field goes; widths and limits stay as they are *)
+(* table.remove_columns(<<field>>): every column showing that field goes; the limits stay as they are, the widths are *)
+(* negotiated again at the next print (without a break-by column other records may be visible)                       *)
 RemoveCols(f) == /\ Can /\ n' = n + 1
                  /\ \E i \in 1 .. Len(cols) : cols[i].f = f
                  /\ \E i \in 1 .. Len(cols) : cols[i].f # f            \* something remains
                  /\ cols' = SelectSeq(cols, LAMBDA c : c.f # f)
                  /\ hist' = Append(hist, [op |-> "removecols", f |-> f])
-                 /\ UNCHANGED <<limits, frozen, skipped>>
+                 /\ frozen' = FALSE
+                 /\ UNCHANGED <<limits, skipped>>
 Report == /\ n = MaxActions /\ n' = n + 1
           /\ Emit => PrintT(ToJson([hist |-> hist, final |-> Shape]))
           /\ UNCHANGED <<cols, limits, frozen, skipped, hist>>
